@@ -117,8 +117,8 @@ class Integrator(object):
         # The parametrization is a monotone function with param(t=0) == 0 and param(t=1) == 1.
         param = self.pulse_parametrization
 
-        # We scale this parametrization such that scaled_param(t=0) == 0 and scaled_param(t=1) == theta.
-        scaled_param = lambda t: param(t) * theta
+        # We scale this parametrization such that the integrand (which divides by a) sees theta * param(t/a) at time t.
+        scaled_param = lambda t: param(t / a) * theta * a
 
         # We parametrize the integrand and integrate it from 0 to a. Integral should go from 0 to a.
         integrand_p = lambda t: integrand(scaled_param(t), a)
